@@ -177,9 +177,11 @@ class Lab:
 
     def close(self) -> None:
         n = len(self.ev)
+        m = len(self.c.events)
         self.loop.shutdown()
         self.late = self.ev[n:]  # produced only by the forced cancellation at tear-down
         del self.ev[n:]
+        del self.c.events[m:]
 
 
 # ------------------------------------------------------------------------- scripted parts
